@@ -115,8 +115,21 @@ def p1(repo, res, canon):
     if not n_out:
         res.ok('C02.P1', cl.methods['__init__'], cl.node, 'no access to Cluster private state from other topsim modules')
     # (b) getters return copies
+    def _internal_only(name):
+        # a private accessor used only as self.<name>(...) inside the Cluster: whoever gets the
+        # container is the Cluster itself (the public getters that use it are judged with it inlined)
+        if not name.startswith('_') or name.startswith('__'):
+            return False
+        for g in repo.all_functions(include_inlined=True):
+            for n in walk_no_nested(g.node):
+                if isinstance(n, ast.Attribute) and n.attr == name:
+                    if not (g.cls is cl and isinstance(n.value, ast.Name) and n.value.id == 'self'):
+                        return False
+        return True
     for name, f in sorted(cl.methods.items()):
         fr = Frame(f)
+        if _internal_only(name):
+            continue
         for r in walk_no_nested(f.node):
             if not isinstance(r, ast.Return) or r.value is None:
                 continue
